@@ -758,6 +758,12 @@ func (u *Unit) evalCall(e *SExpr, env *Env) Val {
 		if t.Sort == "Iface" {
 			t = app("Int", "irefof", t)
 		}
+		if t.Sort == "Slice" {
+			t = sArr(t) // a fresh slice: its backing array was allocated after the old state
+		}
+		if t.Sort != "Int" {
+			u.specFail("fresh() needs a pointer, an interface or a slice")
+		}
 		return Val{T: and(not(eq(t, intLit(0))), app("Bool", ">=", t, env.old.alloc))}
 	case "unbox":
 		x := u.eval(e.Args[0], env)
